@@ -25,7 +25,7 @@ struct SdoDict {
         add_domain(specs, idx, sub, flags, b); objs.push_back({idx, sub, 1, size, (flags & CO_OBJ_____R_) != 0, (flags & CO_OBJ______W) != 0, false});
     }
     void addStr(uint16_t idx, uint8_t sub, uint32_t len, uint32_t seed) {
-        std::vector<uint8_t> b(len); for (uint32_t i = 0; i < len; i++) b[i] = (uint8_t)(32 + pat(seed, i) % 90);
+        std::vector<uint8_t> b(len); for (uint32_t i = 0; i < len; i++) b[i] = (uint8_t)(i % 5 == 3 ? (0x80 | pat(seed, i)) : 32 + pat(seed, i) % 90);   // text with bytes above 7Fh (UTF-8, Latin-1), never NUL
         add_string(specs, idx, sub, b); objs.push_back({idx, sub, 2, len, true, false, false});
     }
     void build(const Plan &p, int nSsdo, bool constSdoIds = true) {
